@@ -402,6 +402,9 @@ func (r *ssRun) complete(slot int, c *ssCall, rng *vRand) {
 	default:
 		err = status.Error(codes.Unavailable, "x")
 	}
+	if dl, ok := c.ctx.Deadline(); ok && !dl.After(time.Now()) && rng.Intn(10) < 9 {
+		err = ssDeadlineErr // the call's deadline has passed: gRPC reports the client-side deadline error
+	}
 	t := r.now()
 	c.done(balancer.DoneInfo{Err: err})
 	r.logIv(slot, ssDone, t)
@@ -486,6 +489,16 @@ func ssConfigs() []ssCfg {
 			cp.MaxSize = 3
 			cp.MaxConcurrentStreamsLowWatermark = 1
 		}),
+		func() ssCfg {
+			// almost every call ends with a client-side deadline: many concurrent
+			// qualifying completions => concurrent refresh attempts and many swaps
+			c := mk("refresh-heavy", func(cp *pb.ChannelPoolConfig) {
+				cp.UnresponsiveCalls = 1
+				cp.UnresponsiveDetectionMs = 1
+			})
+			c.dePct = 92
+			return c
+		}(),
 	}
 }
 
@@ -518,7 +531,9 @@ func TestVerifRaceBalancer(t *testing.T) {
 	}
 	for _, idx := range env.vCases(runs) {
 		cfg := cfgs[idx%int64(len(cfgs))]
-		cfg.dePct = 35
+		if cfg.dePct <= 10 {
+			cfg.dePct = 35
+		}
 		ssInstallYield(uint64(env.Seed)*7919+uint64(idx), 15)
 		r := ssExecute(cfg, env.Seed*1000+idx, budget, 1<<30)
 		verifYieldFn = nil
